@@ -100,7 +100,23 @@ class Hist:
         t = self.t
         with K.quiet(t):
             snap = t.snapshot()
-        return K.model_state(snap, t.keys_in_order() if t.kind == "mem" else None)
+        return K.model_state(snap, t.keys_in_order() if t.kind == "mem" else None) + (
+            [[[[], "chunk", EMPTY_DIR], ["raw", "dir"]]] if dir_only(t.kind, snap) else [])
+
+
+# An existing directory that holds nothing (zarr re-creates the root directory when it opens a str/Path store, e.g. after
+# an overwrite was interrupted right behind the rmtree of delete_geff).  For str/Path targets check_for_geff takes an
+# existing path that is not a zarr group for occupied; the model's guard sees that as `!kv.isEmpty` — so the directory
+# itself is handed to the model as one root-level entry (it is no member, no foreign key, and `clear` removes it).
+EMPTY_DIR = "."
+
+
+def dir_only(kind, snap) -> bool:
+    return K.model_kind(kind) == "path" and snap is not None and len(snap) == 0
+
+
+def abstract_final(kind, snap, order):
+    return K.abstract_state(snap, order) + ([[EMPTY_DIR, ["raw", "dir"]]] if dir_only(kind, snap) else [])
 
 
 _REF: dict[str, dict | None] = {}
@@ -220,7 +236,7 @@ def _run_task(task, tmp):
          "foreign_ok0": K.foreign_preserved(pre_foreign, K.foreign_part(snapF), kind),
          "accepted0": "reject" not in readF, "pre_accepted": "reject" not in prev,
          "g_model": model_g(sw, fmt),
-         "final": K.abstract_state(snapF, t.keys_in_order() if kind == "mem" else None), "points": []}
+         "final": abstract_final(kind, snapF, t.keys_in_order() if kind == "mem" else None), "points": []}
     ks = sw.get("ks")
     ks = list(range(len(ops0))) if ks in (None, "all") else [k for k in ks if k < len(ops0)]
     for k in ks:
